@@ -153,7 +153,7 @@ func (hr *historyRepository) recordMiniblock(blockHeaderHash []byte, blockHeader
 		return err
 	}
 
-	if hr.hasRecentlyInsertedMiniblockMetadata(miniblockHash, epoch) {
+	if hr.hasRecentlyInsertedMiniblockMetadata(blockHeaderHash, miniblockHash, epoch) {
 		return nil
 	}
 
@@ -178,7 +178,7 @@ func (hr *historyRepository) recordMiniblock(blockHeaderHash []byte, blockHeader
 		return err
 	}
 
-	hr.markMiniblockMetadataAsRecentlyInserted(miniblockHash, epoch)
+	hr.markMiniblockMetadataAsRecentlyInserted(blockHeaderHash, miniblockHash, epoch)
 
 	for _, txHash := range miniblock.TxHashes {
 		errPut := hr.miniblockHashByTxHashIndex.Put(txHash, miniblockHash)
@@ -195,8 +195,8 @@ func (hr *historyRepository) computeMiniblockHash(miniblock *block.MiniBlock) ([
 	return core.CalculateHash(hr.marshalizer, hr.hasher, miniblock)
 }
 
-func (hr *historyRepository) hasRecentlyInsertedMiniblockMetadata(miniblockHash []byte, epoch uint32) bool {
-	key := hr.buildKeyOfDeduplicationCacheForInsertMiniblockMetadata(miniblockHash, epoch)
+func (hr *historyRepository) hasRecentlyInsertedMiniblockMetadata(blockHeaderHash []byte, miniblockHash []byte, epoch uint32) bool {
+	key := hr.buildKeyOfDeduplicationCacheForInsertMiniblockMetadata(blockHeaderHash, miniblockHash, epoch)
 	return hr.deduplicationCacheForInsertMiniblockMetadata.Has(key)
 }
 
@@ -204,12 +204,14 @@ func (hr *historyRepository) hasRecentlyInsertedMiniblockMetadata(miniblockHash 
 // - miniblock M added in a fork at the end of epoch E,
 // - miniblock M re-added, on the canonical chain this time, in the next epoch E + 1.
 // This way we do not mistakenly ignore to update the "epochByHashIndex".
-func (hr *historyRepository) buildKeyOfDeduplicationCacheForInsertMiniblockMetadata(miniblockHash []byte, epoch uint32) []byte {
-	return []byte(fmt.Sprintf("%d_%x", epoch, miniblockHash))
+// The block header hash is part of the key as well: the same miniblock recorded again in a competing block of the same epoch
+// must replace the metadata recorded for the dropped block.
+func (hr *historyRepository) buildKeyOfDeduplicationCacheForInsertMiniblockMetadata(blockHeaderHash []byte, miniblockHash []byte, epoch uint32) []byte {
+	return []byte(fmt.Sprintf("%d_%x_%x", epoch, blockHeaderHash, miniblockHash))
 }
 
-func (hr *historyRepository) markMiniblockMetadataAsRecentlyInserted(miniblockHash []byte, epoch uint32) {
-	key := hr.buildKeyOfDeduplicationCacheForInsertMiniblockMetadata(miniblockHash, epoch)
+func (hr *historyRepository) markMiniblockMetadataAsRecentlyInserted(blockHeaderHash []byte, miniblockHash []byte, epoch uint32) {
+	key := hr.buildKeyOfDeduplicationCacheForInsertMiniblockMetadata(blockHeaderHash, miniblockHash, epoch)
 	_ = hr.deduplicationCacheForInsertMiniblockMetadata.Put(key, nil, 0)
 }
 
